@@ -106,6 +106,7 @@ def main(argv):
                 continue
             jobs.append((ci, c, i[1], pl, tp))
         nclients = 3
+        first_job = jobs[0][0] if jobs else -1
 
         def work(job):
             ci, c, files, pl, tp = job
@@ -120,7 +121,7 @@ def main(argv):
             outs = [e['name'] for e in mcp['itf']['events'] if e['out']]
             hrng = random.Random(seed * 1000 + ci)
             hists = [gen_history(hrng, clients, others, outs, hrng.randint(5, 30)) for _ in range(12 if tier == 'quick' else 120)]
-            if ci == 0 or tier == 'thorough':   # all sequences of length <= 4 over 2 clients (claim granted/refused, release, out)
+            if ci == first_job or tier == 'thorough':   # all sequences of length <= 4 over 2 clients (claim granted/refused, release, out)
                 alpha = [['claim', 'A', True], ['claim', 'A', False], ['claim', 'B', True], ['release', 'A'], ['release', 'B']] + ([['out', outs[0]]] if outs else [])
                 for n in range(1, 5):
                     for seq in itertools.product(alpha, repeat=n):
